@@ -45,7 +45,7 @@ pub fn on_deliver_tramp(w: &mut World, u: usize, i: usize, rel_expiry: i64) {
             first: Some(u),
             rec_at_first: Some(rec),
             live_at_first: live,
-            aged_secs: w.aged,
+            aged_secs: w.aged_hashes.iter().find(|(h, _)| *h == i).map(|(_, a)| *a),
             wall_start: Some(std::time::Instant::now()),
             ..Default::default()
         };
